@@ -26,7 +26,8 @@ LEVEL = "fault_enumeration"
 RULE = ("case = (task in compress/condense/repack/join/split/tdms2rtdc, generated input variant "
         "incl. stale output and stale temporary files, operation index k of the fault-free run, "
         "mode in {raise EIO, kill}); quick: every 6th k plus the first 6 and last 8, thorough: all "
-        "k; after every 3rd (thorough: 2nd) failpoint the same command is run again in the "
+        "k (tdms2rtdc runs with more than 400 operations: all of the first and last 80, every 4th "
+        "in between); after every 3rd (thorough: 2nd) failpoint the same command is run again in the "
         "directory the interrupted run left behind. Non-trivial = a failpoint that was actually reached (the child reported the hit); "
         "distinct by (task, variant, k, mode)")
 LEVEL_TEXT = ("Fault enumeration over every hooked file-system operation of each task run (HDF5 "
@@ -45,7 +46,7 @@ ASSUMPTIONS = ["input path != output path", "leftover *.rtdc~ temporary files ar
 MIN_EVALS = {"c10.fault.output_absent_or_complete": 300, "c10.fault.inputs_unmodified": 300,
              "c10.rerun.output_absent_or_complete": 100,
              "c10.trace.checked_runs": 3}
-WATCHDOG_S = {"quick": 500, "thorough": 3400}
+WATCHDOG_S = {"quick": 500, "thorough": 5400}
 TASKS = ["compress", "repack", "condense", "join", "split", "tdms2rtdc"]
 
 
@@ -56,7 +57,7 @@ def plan(tier, seed):
     shards = []
     for ti, t in enumerate(TASKS):
         variants = [ti % 2] if tier == "quick" else [0, 1, 2, 3]
-        parts = heavy[t] if tier == "quick" else 4
+        parts = heavy[t] if tier == "quick" else (8 if t == "tdms2rtdc" else 4)
         for v in variants:
             for pi in range(parts):
                 shards.append({"kind": "faults", "task": t, "variant": v, "part": pi,
@@ -264,6 +265,11 @@ def run_faults(spec, ctx):
     if ctx.tier == "quick":
         ks = sorted(set(list(range(1, nops + 1, 6)) + list(range(1, 7))
                         + list(range(max(1, nops - 7), nops + 1))))
+    elif task == "tdms2rtdc" and nops > 400:
+        # a conversion run costs seconds (video decoding in a helper process): every failpoint
+        # of the first and last 80 operations, every 4th of the repetitive middle part
+        ks = sorted(set(list(range(1, 81)) + list(range(81, nops - 80, 4))
+                        + list(range(max(1, nops - 80), nops + 1))))
     else:
         ks = list(range(1, nops + 1))
     ks = [k for i, k in enumerate(ks) if i % spec.get("parts", 1) == spec.get("part", 0)]
@@ -300,7 +306,7 @@ def run_faults(spec, ctx):
             # ---- the same command is run again in the directory the interrupted run left
             # behind (no clean-up in between): it must either refuse / fail without creating
             # an output, or produce the complete outputs of an undisturbed run
-            if ki % (3 if ctx.tier == "quick" else 2) == 0:
+            if ki % (3 if ctx.tier == "quick" else (4 if task == "tdms2rtdc" else 2)) == 0:
                 code2 = faults.run_child(run)
                 v2 = faults.call_in_child(lambda: verify(info, str(ref_dir), in_sha, stale))
                 if not v2["ok"]:
